@@ -148,32 +148,31 @@ func vhC03Validate(maxN int, full bool) {
 
 	err := sp.Validate(r)
 
-	// specification
+	// specification (independent of how often / when the implementation reads the SP clock: readings within one
+	// call are non-decreasing, so "unexpired at every reading used" is implied by "unexpired at the first",
+	// and an expiry verdict must be true at the last reading at the latest)
 	static := vhResponseStatic(sp, r)
-	allOK := static
+	staticAll := static
 	reads := vClockReads("sp")
-	k := 0
+	unexpiredAtFirst, expiredAtLast := true, false
 	for i := 0; i < n; i++ {
 		a := &r.Assertions[i]
-		aOK := vhAssertionStatic(sp, a)
-		allOK = vAnd(allOK, aOK)
-		if a.Subject != nil && a.Subject.SubjectConfirmation != nil && a.Subject.SubjectConfirmation.SubjectConfirmationData != nil {
+		staticAll = vAnd(staticAll, vhAssertionStatic(sp, a))
+		if a.Subject != nil && a.Subject.SubjectConfirmation != nil && a.Subject.SubjectConfirmation.SubjectConfirmationData != nil && reads >= 1 {
 			scd := a.Subject.SubjectConfirmation.SubjectConfirmationData
-			if k < reads {
-				// expiry against the clock reading the code made for this assertion
-				allOK = vAnd(allOK, vClockAt("sp", k) < vParseNs(scd.NotOnOrAfter))
-				k++
-			}
+			unexpiredAtFirst = vAnd(unexpiredAtFirst, vClockAt("sp", 0) < vParseNs(scd.NotOnOrAfter))
+			expiredAtLast = vOr(expiredAtLast, vAnd(vParseOK(scd.NotOnOrAfter), vClockAt("sp", reads-1) >= vParseNs(scd.NotOnOrAfter)))
 		}
 	}
 	vReach("accepted", err == nil)
 	vReach("rejected", err != nil)
 	if err == nil {
-		vAssert("C03.accept-implies-all-checks", allOK)
-		vAssert("C03.one-clock-reading-per-assertion", reads == n)
+		vAssert("C03.accept-implies-all-checks", staticAll)
+		vAssert("C03.accept-implies-sp-clock-consulted", reads >= 1)
+		vAssert("C03,C05.accept-implies-no-assertion-expired", unexpiredAtFirst)
 		vAssert("C03.no-wall-clock", vWallReads() == 0)
 	} else {
-		vAssert("C03.reject-implies-some-check-failed", vNot(vAnd(allOK, reads == n)))
+		vAssert("C03.reject-implies-some-check-failed", vOr(vNot(staticAll), expiredAtLast))
 		vhCheckTypedError(sp, r, n, err)
 	}
 }
@@ -263,13 +262,11 @@ func vhCheckTypedError(sp *SAMLServiceProvider, r *types.Response, n int, err er
 			named = vAnd(named, e.Expected == sp.AssertionConsumerServiceURL)
 		case "NotOnOrAfter":
 			reads := vClockReads("sp")
-			k := 0
 			for i := 0; i < n; i++ {
 				s := r.Assertions[i].Subject
-				if s != nil && s.SubjectConfirmation != nil && s.SubjectConfirmation.SubjectConfirmationData != nil && k < reads {
+				if s != nil && s.SubjectConfirmation != nil && s.SubjectConfirmation.SubjectConfirmationData != nil && reads >= 1 {
 					scd := s.SubjectConfirmation.SubjectConfirmationData
-					named = vOr(named, vAnd(vParseOK(scd.NotOnOrAfter), vClockAt("sp", k) >= vParseNs(scd.NotOnOrAfter)))
-					k++
+					named = vOr(named, vAnd(vParseOK(scd.NotOnOrAfter), vClockAt("sp", reads-1) >= vParseNs(scd.NotOnOrAfter)))
 				}
 			}
 			named = vAnd(named, e.Reason == "Expired")
